@@ -113,4 +113,55 @@ pub fn run(out: &mut Out, thorough: bool, seed: u64, _extra: &[String]) {
             } }
         }
     }
+    high_degree(out, &mut r, kmax, thorough);
 }
+
+fn mulm(a: u64, b: u64, q: u64) -> u64 { ((a as u128 * b as u128) % q as u128) as u64 }
+fn powm(mut b: u64, mut e: u64, q: u64) -> u64 { let mut r = 1u64 % q; b %= q; while e > 0 { if e & 1 == 1 { r = mulm(r, b, q); } b = mulm(b, b, q); e >>= 1; } r }
+fn brev(x: usize, k: usize) -> usize { if k == 0 { 0 } else { x.reverse_bits() >> (usize::BITS as usize - k) } }
+
+/// EVERY supported degree above the ones compared with the model line by line, up to the maximum 2^17: the property's clauses checked against
+/// their definitions inside the harness (u128 arithmetic): tables exist for an NTT-friendly prime and are reproducible, the root is a primitive
+/// 2N-th root, the forward transform of X is the vector of evaluation points psi^(2 brev(i)+1) (so the transform of any polynomial is its
+/// evaluation there, by linearity and multiplicativity checked next), inverse . forward = id, lazy outputs congruent and inside their ranges,
+/// pointwise products = negacyclic products (sparse operand, schoolbook reference).
+fn high_degree(out: &mut Out, r: &mut Rng, kmax: usize, thorough: bool) {
+    for k in (kmax + 1)..=17 {
+        let n = 1usize << k;
+        let sizes: Vec<usize> = if k == 17 || thorough { vec![k + 2, 40, 60] } else { vec![*r.pick(&[k + 2, 30, 50, 60])] };
+        for bits in sizes {
+            let q = match (bits..=61).find_map(|b| std::panic::catch_unwind(|| hu::get_primes(2u64 << k, b, 1)).ok()) { Some(p) => p[0].value(), None => continue };
+            let cls = format!("high-k{}b{}", k, bits);
+            let (t, t2) = match (hu::NTTTables::new(k, &Modulus::new(q)), hu::NTTTables::new(k, &Modulus::new(q))) {
+                (Ok(a), Ok(b)) => (a, b),
+                _ => { out.raw(&format!("!FAIL ntt_high tables {} {} :: no tables for a supported degree and a prime = 1 mod 2N # {}", k, q, cls)); continue } };
+            let psi = t.root();
+            if psi != t2.root() { out.raw(&format!("!FAIL ntt_high root {} {} :: two constructions chose different roots {} / {} # {}", k, q, psi, t2.root(), cls)); continue; }
+            if powm(psi, n as u64, q) != q - 1 { out.raw(&format!("!FAIL ntt_high root {} {} :: root {} is not a primitive 2N-th root of unity # {}", k, q, psi, cls)); continue; }
+            // forward transform of X
+            let mut x = vec![0u64; n]; x[1 % n] = 1; pm::ntt(&mut x, &t);
+            let psi2 = mulm(psi, psi, q);
+            let bad = (0..n).find(|&i| x[i] != mulm(psi, powm(psi2, brev(i, k) as u64, q), q));
+            if let Some(i) = bad { out.raw(&format!("!FAIL ntt_high eval {} {} :: ntt(X)[{}] = {} is not psi^(2 brev(i)+1) # {}", k, q, i, x[i], cls)); continue; }
+            // round trip and lazy forms on a random vector
+            let v: Vec<u64> = (0..n).map(|_| r.below(q)).collect();
+            let mut w = v.clone(); pm::ntt(&mut w, &t);
+            let mut wl = v.clone(); pm::ntt_lazy(&mut wl, &t);
+            if let Some(i) = (0..n).find(|&i| wl[i] >= 4 * q || wl[i] % q != w[i]) { out.raw(&format!("!FAIL ntt_high lazy {} {} :: lazy forward output {} at {} not congruent to {} or outside [0,4q) # {}", k, q, wl[i], i, w[i], cls)); continue; }
+            let mut back = w.clone(); pm::intt(&mut back, &t);
+            if back != v { out.raw(&format!("!FAIL ntt_high inverse {} {} :: intt(ntt(v)) != v # {}", k, q, cls)); continue; }
+            let mut bl = w.clone(); pm::intt_lazy(&mut bl, &t);
+            if let Some(i) = (0..n).find(|&i| bl[i] >= 2 * q || bl[i] % q != v[i]) { out.raw(&format!("!FAIL ntt_high lazy {} {} :: lazy inverse output {} at {} not congruent or outside [0,2q) # {}", k, q, bl[i], i, cls)); continue; }
+            // multiplicativity: sparse a (three terms) times v, against the schoolbook negacyclic product
+            let terms: Vec<(usize, u64)> = (0..3).map(|_| (r.below(n as u64) as usize, 1 + r.below(q - 1))).collect();
+            let mut a = vec![0u64; n]; for &(i, c) in &terms { a[i] = (a[i] + c) % q; }
+            let mut want = vec![0u64; n];
+            for (i, &c) in a.iter().enumerate() { if c == 0 { continue; } for j in 0..n { let p = mulm(c, v[j], q); let d = i + j; if d < n { want[d] = (want[d] + p) % q; } else { want[d - n] = (want[d - n] + q - p) % q; } } }
+            let mut an = a.clone(); pm::ntt(&mut an, &t);
+            let mut prod = vec![0u64; n]; pm::dyadic_product(&an, &w, &Modulus::new(q), &mut prod); pm::intt(&mut prod, &t);
+            if prod != want { out.raw(&format!("!FAIL ntt_high convolution {} {} :: intt(ntt(a) . ntt(b)) is not a*b mod X^N+1 # {}", k, q, cls)); continue; }
+            out.raw(&format!("!OK ntt_high {} {} # {}", k, q, cls));
+        }
+    }
+}
+
